@@ -8,10 +8,13 @@
   * `C17_fires_at_due_once`: executing a scheduled action picks a slot whose due time is the
     target, emits its event (PaddingSent / BlockingBegin for the slot's machine, with the
     action's flags) stamped with exactly that due time, and empties the slot — so it fires once;
+  * `C17_served_before_due`, `C17_stored_not_in_past`: the liveness core — the next served offset
+    is at most the offset of every pending action, and stored due times start at or after the
+    clock;
   * `C17_due_not_skipped`: the offset `pick_next` computes for scheduled actions is the smallest
     pending due time at or after the clock; no candidate it serves first is later than it.
 -/
-import MbVerif.Proofs.SimSlots
+import MbVerif.Proofs.SimLive
 import MbVerif.Spec.C17
 
 namespace Mb.C17
@@ -46,6 +49,25 @@ theorem C17_due_not_skipped (c s : List (Option SchedAction)) (now : Int) (a : S
     (hm : some a ∈ c ∨ some a ∈ s) (hn : now ≤ a.time) :
     peekScheduledAction c s now ≤ dsince a.time now :=
   peekScheduledAction_le_mem c s now a hm hn
+
+/-- **Served before it is due**: whatever `pick_next` decides to serve next (blocking expiry,
+    queued event, internal timer or scheduled action), its offset from the clock is at most the
+    offset of every pending action timer that is not in the past; so simulated time cannot move
+    past a pending action before it is executed. -/
+theorem C17_served_before_due (st : St σ) (p : Pick) (o : Nat) (h : pickDecide st = .ok p) (ho : p.offset = some o)
+    (a : SchedAction) (hm : some a ∈ st.client.schedAction ∨ some a ∈ st.server.schedAction) (hn : st.now ≤ a.time) :
+    o ≤ dsince a.time st.now :=
+  served_before_action h ho a hm hn
+
+/-- a stored action is never in the past when it is stored: its due time is the clock plus the
+    timeout -/
+theorem C17_stored_not_in_past (cur : Option Pending) (t : Int) (a : TAction) (p : Pending)
+    (h : slotSpec cur t a = some p) (hc : ∀ q, cur = some q → t ≤ q.due) : t ≤ p.due := by
+  cases a with
+  | cancel m tm => cases tm <;> simp [slotSpec] at h; exact hc p h
+  | sendPadding to b r m => simp [slotSpec] at h; rw [← h]; simp; omega
+  | blockOutgoing to d b r m => simp [slotSpec] at h; rw [← h]; simp; omega
+  | updateTimer d r m => simp [slotSpec] at h; exact hc p h
 
 /-- non-vacuity: a one-slot side on which a padding action is stored -/
 example : slotSpec none 5 (.sendPadding 3 true false 0) = some ⟨.sendPadding 3 true false 0, 3005⟩ := by decide
